@@ -68,6 +68,23 @@ def _tmpdir():
 
 
 # ------------------------------------------------------------------ plans
+class RejectingProvider(pywbem_mock.InstanceWriteProvider):
+    """User defined provider that refuses its k-th DeleteInstance."""
+
+    def __init__(self, cimrepository, classname, k):
+        super().__init__(cimrepository)
+        self.provider_classnames = classname
+        self.k = k
+        self.n = 0
+
+    def DeleteInstance(self, InstanceName):
+        self.n += 1
+        if self.n == self.k:
+            raise CIMError(pywbem.CIM_ERR_ACCESS_DENIED,
+                           'provider refuses to delete %s' % InstanceName)
+        return super().DeleteInstance(InstanceName)
+
+
 def gen_plan(run_seed, tier, index):
     r = stream(run_seed, 'plan')
     base = 500000
@@ -568,6 +585,16 @@ def execute(plan):
            lambda c: c.DeleteClass('NoSuch', namespace=ns))
     single('DeleteClass', 'unknown_namespace',
            lambda c: c.DeleteClass(some['name'], namespace='no/such'))
+    # DeleteClass removes the instances through their providers: a user
+    # defined provider that refuses the k-th deletion
+    for cdesc in plain[:3]:
+        for k in (1, 2, 3):
+            def delete_with_provider(c, cn=cdesc['name'], k=k):
+                c.register_provider(RejectingProvider(c.cimrepository, cn, k),
+                                    namespaces=[ns])
+                c.DeleteClass(cn, namespace=ns)
+            single('DeleteClass', 'provider_rejects_%s_instance' % (
+                'first' if k == 1 else 'later'), delete_with_provider)
     single('DeleteQualifier', 'not_found',
            lambda c: c.DeleteQualifier('NoSuchQ', namespace=ns))
     single('DeleteQualifier', 'in_use',
